@@ -86,6 +86,12 @@ def make_message(shape, n, mac_i):
     return 'dev %s up #' + str(n), (Obj(mac),), 'dev %s up #%d' % (mac, n), True, True
   if shape == 'mac-split':
     return 'dev ' + mac[:9] + '%s up #' + str(n), (mac[9:],), 'dev %s up #%d' % (mac, n), True, True
+  if shape == 'malformed-type':      # arguments that do not fit the format string: logging reports, never raises
+    return 'count %d #' + str(n), ('x',), None, False, False
+  if shape == 'malformed-count':
+    return 'a %s b %s #' + str(n), ('only-one',), None, False, False
+  if shape == 'malformed-mac':
+    return 'dev %s %d #' + str(n), (mac,), None, False, False
   if shape == 'near-mac':
     t = 'short %s long %s:99 #%d' % (mac[:14], mac, n)
     return t, (), t, False, False
@@ -93,11 +99,15 @@ def make_message(shape, n, mac_i):
 
 
 SHAPES = ['plain', 'args', 'dict', 'nonstr-arg', 'unicode', 'percent-noargs', 'nonstr-msg', 'mac-msg', 'mac-arg', 'mac-two', 'mac-dict',
-          'mac-dict-positional', 'mac-nonstr-arg', 'mac-split', 'near-mac']
-LEVELS = [logging.DEBUG, logging.INFO, logging.WARNING, logging.ERROR, logging.CRITICAL]
+          'mac-dict-positional', 'mac-nonstr-arg', 'mac-split', 'near-mac', 'malformed-type', 'malformed-count', 'malformed-mac']
+# 5 and 25 are custom numeric levels (TRACE / NOTICE as device libraries define them); levels below the effective level
+# of the logger are enabled on the logger object that is used for the call
+LEVELS = [logging.DEBUG, logging.INFO, logging.WARNING, logging.ERROR, logging.CRITICAL, 5, 25, 1]
 
 
 def emit(logger, level, msg, args):
+  if level < logging.DEBUG:
+    logger.setLevel(1)
   logger.log(level, msg, *args)  # EMIT-LINE
 
 
@@ -163,12 +173,20 @@ def check_history(case):
         if op[4] in ('dict', 'mac-dict', 'mac-dict-positional'):
           flags['dictargs'] = True
         t0 = int(time.time() * 1000)
+        saved_raise = logging.raiseExceptions
+        if text is None:
+          logging.raiseExceptions = False    # keep "--- Logging error ---" off stderr; emit() swallows either way
+          flags['malformed'] = True
         try:
           emit(logger, op[3], msg, args)
         except Exception as e:  # pylint: disable=broad-except
           r.bad('C19/log-call-raised/%s/%s' % (op[4], type(e).__name__), 'op %d: logging %r %% %r through %s raised %r (live runs: %d)' % (
               k, msg, args, name, e, len([x for x in runs.values() if x['live']])))
+        finally:
+          logging.raiseExceptions = saved_raise
         t1 = int(time.time() * 1000) + 1
+        if text is None:
+          continue      # nothing can be recorded for a message that cannot be formatted; the call must just not raise
         for tg in targets:
           tg['expected'].append({'level': op[3], 'name': name, 'text': redact(text), 'raw': text, 'compare': compare, 'has_mac': has_mac,
                                  't0': t0, 't1': t1, 'shape': op[4], 'n': n})
